@@ -115,7 +115,7 @@ var c13MalformedList []c13Malformed
 func init() {
 	c13BuildPairs()
 	for _, op := range []string{"put", "get", "update", "delete", "batchwrite", "batchget"} {
-		for _, d := range []string{"missing-hash", "missing-range", "empty-key"} {
+		for _, d := range []string{"missing-hash", "missing-range", "empty-key", "hash-empty-value", "range-empty-value"} {
 			c13MalformedList = append(c13MalformedList, c13Malformed{op, d})
 		}
 		for _, k := range val.AllKinds {
@@ -455,6 +455,11 @@ func (p *c13) malformed(x *res, adapter string, ctx *runner.Ctx) {
 			delete(key, "r")
 		case mf.defect == "empty-key":
 			key = val.Item{}
+		case mf.defect == "hash-empty-value":
+			// a key attribute of the declared type whose value is empty is not a valid key value
+			key["h"] = val.Str("")
+		case mf.defect == "range-empty-value":
+			key["r"] = val.Str("")
 		case len(mf.defect) > 10 && mf.defect[:10] == "hash-type-":
 			key["h"] = mon.ValueOfKind(mon.Rng(1, "x", 1), val.Kind(mf.defect[10:]), 1, mon.GenOpts{NoEmptyLM: true})
 		default:
@@ -490,10 +495,12 @@ func (p *c13) malformed(x *res, adapter string, ctx *runner.Ctx) {
 		wit := map[string]interface{}{"adapter": adapter, "op": op, "outcome": got}
 		ok := got.Class == adapt.ClsValidation || got.Class == adapt.ClsParam
 		if mf.op == "batchget" && got.Class == adapt.ClsOK {
-			// the SDK v2 adapter reports per-key failures of BatchGetItem through UnprocessedKeys (pinned
-			// by its tests); a malformed key must at least not be answered with an item
-			if len(got.Resp[spec.Name]) == 0 {
+			// the SDK v2 adapter reports per-key failures of BatchGetItem through UnprocessedKeys instead of
+			// rejecting the request (pinned by its TestPutAndGetBatchItem): ONE listed finding, whatever the defect of
+			// the key; a malformed key that is answered with an item or silently dropped is something else
+			if len(got.Resp[spec.Name]) == 0 && len(got.UnprocK[spec.Name]) == 1 {
 				x.r.Counters["batchget_malformed_key_unprocessed"]++
+				x.viol("batchget-malformed-key-reported-unprocessed", adapter, fmt.Sprintf("[%s] BatchGetItem with %s key %s succeeds and lists the key under UnprocessedKeys, want a validation error", adapter, mf.defect, key.Canon()), wit)
 				continue
 			}
 		}
